@@ -126,12 +126,11 @@ impl<'a> Trace<'a> {
                 Ev::ConnEnd { conn } => conns[*conn].ev_end = i,
                 Ev::Io { conn, ans: IoAns::Zero, .. } => {
                     // a write answered Ok(0): queue-based packets keep their progress and are
-                    // carried on by the next call (the handle stays up); a QoS 0 PUBLISH or a
-                    // CONNECT written straight from scratch space is left cut short for good
+                    // carried on by the next call (the handle stays up); a QoS 0 PUBLISH cut
+                    // short that way ends the connection like a transport error does; a CONNECT
+                    // cut short that way is the end of that handshake
                     let op = log.ops.iter().find(|o| o.ev_call <= i && i <= o.ev_ret);
-                    let direct = op.is_none_or(|o| {
-                        o.kind == "connect" || o.kind == "publish0" || matches!(&log.steps[o.step], Step::Publish(p) if p.qos == 0 || log.cfg.downgrade) || matches!(&log.steps[o.step], Step::PollReply { .. })
-                    });
+                    let direct = op.is_none_or(|o| o.kind == "connect");
                     conns[*conn].zero_seen = true;
                     if direct {
                         conns[*conn].write_zero = true;
